@@ -121,6 +121,40 @@ func c13Line1(st *c13State, l string) string {
 		return "bad-op"
 	}
 	switch {
+	case t[1] == "uploadid" && len(t) == 3:
+		// sub uploadid <prefix>: the view laid over an HTTP client (whose upload IDs are upload URLs). An upload ID that
+		// the registry issued for a repository OUTSIDE the prefix is handed to the view under an inside name. Where does
+		// the blob land? (F45)
+		prefix, ok := untok(t[2])
+		if !ok {
+			return "bad-op"
+		}
+		mem := ocimem.New()
+		ch := newChain(mem, 1, nil, nil)
+		defer ch.Close()
+		cl := ch.regs[1]
+		ctx := context.Background()
+		w0, err := cl.PushBlobChunked(ctx, "secret", 0)
+		if err != nil {
+			return "setup " + errClass(err)
+		}
+		id := w0.ID()
+		w0.Close()
+		view := c13MkSub(cl, prefix)
+		data := []byte("smuggled")
+		w, err := view.PushBlobChunkedResume(ctx, "x", id, 0, 0)
+		if err != nil {
+			return "refused-at-resume"
+		}
+		if _, err := w.Write(data); err != nil {
+			return "refused-at-write"
+		}
+		if _, err := w.Commit(ociregistry.Digest(sha256Digest(data))); err != nil {
+			return "refused-at-commit"
+		}
+		_, errIn := mem.ResolveBlob(ctx, prefix+"/x", ociregistry.Digest(sha256Digest(data)))
+		_, errOut := mem.ResolveBlob(ctx, "secret", ociregistry.Digest(sha256Digest(data)))
+		return fmt.Sprintf("committed inside=%v outside=%v", errIn == nil, errOut == nil)
 	case t[1] == "call" && len(t) >= 7:
 		prefix, ok0 := untok(t[2])
 		n1, ok1 := untok(t[4])
@@ -313,6 +347,9 @@ func (*c13) Gen(rng *RNG, tier string) []Case {
 	add := func(format string, a ...any) {
 		cases = append(cases, Case{Lines: []string{fmt.Sprintf(format, a...)}})
 	}
+	for _, pre := range []string{"a", "a/b", "p"} {
+		cases = append(cases, Case{Tag: "upload-id", Lines: []string{"sub uploadid " + tok(pre)}})
+	}
 	methods, _ := ifaceMethodKinds()
 	// every method × prefixes × dirty names, with a rotating scope; and every scope kind on every method
 	for _, m := range methods {
@@ -475,6 +512,12 @@ func (*c13) Oracle(c Case, impl []string) []Failure {
 		}
 		t := strings.Split(l, " ")
 		got := impl[i]
+		if len(t) >= 2 && t[1] == "uploadid" {
+			if strings.HasSuffix(got, "outside=true") {
+				fail(i, "c13-escapes-prefix:upload-id", "sub_confined", "the upload refused, or the blob stored under the prefix only")
+			}
+			continue
+		}
 		if c.Tag == "malformed" || len(t) < 2 {
 			continue
 		}
